@@ -315,6 +315,17 @@ pub fn dispatch(f: &[&str]) -> String {
         x if x.starts_with("c19.") || x == "msg.full" => crate::misc::dispatch(f),
         "dkim.sign" => crate::dkim::sign(f),
         "mime.format" => crate::mime::format(f[1]),
+        "mime.threads" => {
+            // generated boundaries of multiparts created on several fresh threads (k each): they are nested into one another in real
+            // programs, so all of them must differ
+            use lettre::message::MultiPart;
+            let (n, k): (usize, usize) = (f[1].parse().unwrap(), f[2].parse().unwrap());
+            let hs: Vec<_> = (0..n).map(|_| std::thread::spawn(move || (0..k).map(|_| MultiPart::mixed().build().boundary()).collect::<Vec<String>>())).collect();
+            let mut all: Vec<String> = vec![];
+            for h in hs { all.extend(h.join().unwrap()); }
+            let distinct: std::collections::HashSet<&String> = all.iter().collect();
+            format!("{}\t{}", all.len(), distinct.len())
+        }
         "mime.message" => crate::mime::message(f[1]),
         "body.new" => {
             use lettre::message::Body;
@@ -328,6 +339,29 @@ pub fn dispatch(f: &[&str]) -> String {
             let e = match f[2] { "7bit" => C::SevenBit, "8bit" => C::EightBit, "quoted-printable" => C::QuotedPrintable, "base64" => C::Base64, _ => C::Binary };
             let r = if f[1] == "1" { match String::from_utf8(raw) { Ok(s) => Body::new_with_encoding(s, e), Err(_) => return "invalid-utf8".into() } } else { Body::new_with_encoding(raw, e) };
             match r { Ok(b) => format!("ok\t{}\t{}", b.encoding(), hex(b.as_ref())), Err(x) => format!("err\t{}", hex(&x)) }
+        }
+        "body.part" => {
+            // the body through the builders: f[1] target (msg | part), f[2] Content-Transfer-Encoding set on the builder first (- for none),
+            // f[3] argument kind (str | vec | body:<encoding>), f[4] content.  Output: the formatted message / part.
+            use lettre::message::{header::ContentTransferEncoding as C, Body, SinglePart};
+            let enc = |x: &str| match x { "7bit" => C::SevenBit, "8bit" => C::EightBit, "quoted-printable" => C::QuotedPrintable, "base64" => C::Base64, _ => C::Binary };
+            let raw = unhex(f[4]);
+            enum Arg { S(String), V(Vec<u8>), B(Body) }
+            let arg = if f[3] == "str" { match String::from_utf8(raw) { Ok(s) => Arg::S(s), Err(_) => return "invalid-utf8".into() } }
+                else if f[3] == "vec" { Arg::V(raw) }
+                else { match Body::new_with_encoding(raw, enc(&f[3][5..])) { Ok(b) => Arg::B(b), Err(_) => return "refused".into() } };
+            if f[1] == "part" {
+                let mut b = SinglePart::builder().header(lettre::message::header::ContentType::TEXT_PLAIN);
+                if f[2] != "-" { b = b.header(enc(f[2])); }
+                let p = match arg { Arg::S(x) => b.body(x), Arg::V(x) => b.body(x), Arg::B(x) => b.body(x) };
+                format!("ok\t{}", hex(&p.formatted()))
+            } else {
+                let mut b = lettre::Message::builder().from("a@x.example".parse().unwrap()).to("b@y.example".parse().unwrap())
+                    .date(std::time::UNIX_EPOCH + std::time::Duration::from_secs(1_700_000_000));
+                if f[2] != "-" { b = b.header(enc(f[2])); }
+                let r = match arg { Arg::S(x) => b.body(x), Arg::V(x) => b.body(x), Arg::B(x) => b.body(x) };
+                match r { Ok(m) => format!("ok\t{}", hex(&m.formatted())), Err(e) => format!("err\t{e}") }
+            }
         }
         "mbox.display" => {
             use std::fmt::Write;
